@@ -254,6 +254,8 @@ def _cases(shard, tier):
             for c in G.window_cases(contig, seq, start, L, _shapes_for(b, L, cls)):
                 c.update(fixed)
                 yield c
+                if L <= 2:
+                    yield dict(c, build='empty')
 
 
 # ------------------------------------------------------------------------------------------------ one case
@@ -324,8 +326,14 @@ def run_case(case):
             kw['features'] = _STATE['features']
         if minq is not None:
             kw['methylation_consensus_kwargs'] = {'min_phred_score': minq}
-        mol = mcls(frags[0], **kw)
-        for f in frags[1:]:
+        if case.get('build') == 'empty':
+            # the documented other way to build a molecule: created without fragments, every fragment added later
+            mol = mcls(None, **kw)
+            rest = frags
+        else:
+            mol = mcls(frags[0], **kw)
+            rest = frags[1:]
+        for f in rest:
             if not mol.add_fragment(f):
                 raise HarnessError(f'a copy of the fragment was refused by the molecule: {case}')
         for frag in frags:
